@@ -52,6 +52,19 @@ def long_inputs(ctx):
     n_small = [30, 200, 1500]
     n_big = [5000, 20000] if ctx.thorough else []
     out = []
+    # string CONTENTS that another parser would choke on (regex repetition bounds, deeply nested groups, format fields, huge exponents): a literal's content
+    # is data, whatever function it is handed to
+    payloads = ["^x{4294967296}$", "x{2147483648,}", "(" * 1500 + ")" * 1500, "(" * 200, "[" * 500, "(?P<n>" * 300, "\\", "\\1" * 50, "{0" * 300 + "}" * 300, "%(x)s" * 100, "${" * 200,
+                "a" * 70000, "(a*)*b" + "a" * 40, "[[:alpha:]]", "(?i)(?s)(?x)", "\\N{LATIN SMALL LETTER A}", "\\x", "\\u12", "{4294967296}", "1e999999999", "9" * 400 + "e" + "9" * 400]
+    from odata_query import grammar as _g
+    for nm, ar in list(_g.ODATA_FUNCTIONS.items()):
+        lo = ar if isinstance(ar, int) else ar[0]
+        if lo == 0:
+            continue
+        for pl in payloads[: (len(payloads) if nm in ("matchesPattern", "contains", "substring", "concat", "date", "length") else 4)]:
+            q = "'" + pl.replace("'", "''") + "'"
+            out.append(nm + "(" + ", ".join(["a"] * (lo - 1) + [q]) + ")")
+            out.append(nm + "(" + ", ".join([q] + ["a"] * (lo - 1)) + ")")
     # digit runs beyond the interpreter's int <-> str conversion limit (4300 digits): a literal's TEXT is never a reason for a foreign exception
     for n in (4299, 4301, 5000):
         out += ["1" * n, "a eq " + "9" * n, "1." + "5" * n, "-" + "7" * n + " lt x", "x in (1, " + "0" * n + "1)", "1e" + "9" * n, "f(" + "3" * n + ")"]
